@@ -16,6 +16,30 @@ BASE = "cd /repo && cargo nextest run --workspace --no-fail-fast --tool-config-f
 BASECMD = BASE
 
 
+SNAP = ""
+
+
+def snapshot():
+    """freeze the sources of the machinery (not the build output) so that edits made in /verif while jobs are queued do not leak into them"""
+    global SNAP
+    SNAP = "/tmp/ns/_snap"
+    shutil.rmtree(SNAP, ignore_errors=True)
+    os.makedirs(SNAP + "/harness")
+    for rel in ("check", "lib", "oracle", "gen", "known_findings.json", "setup", "harness/src", "harness/fuzz", "harness/Cargo.toml", "harness/Cargo.lock"):
+        src = os.path.join(ROOT, rel)
+        if os.path.isdir(src):
+            subprocess.run(["cp", "-a", src, os.path.join(SNAP, rel)], check=True)
+        elif os.path.exists(src):
+            subprocess.run(["cp", "-a", src, os.path.join(SNAP, rel)], check=True)
+    # the build output of the quick-tier variants, too: a lower layer that changes under a mounted overlay (a build in the real /verif
+    # while jobs run) corrupts incremental state in the jobs ("undefined hidden symbol" at link time)
+    for t in ("target-rel", "target-dbg", "target-miri", "target-rel-openapi", "target-c16"):
+        if os.path.isdir(os.path.join(ROOT, "harness", t)):
+            subprocess.run(["cp", "-a", os.path.join(ROOT, "harness", t), os.path.join(SNAP, "harness", t)], check=True)
+    for d in ("harness/fuzz/target", "harness/fuzz/corpus", "harness/fuzz/artifacts"):
+        shutil.rmtree(os.path.join(SNAP, d), ignore_errors=True)
+
+
 def section(text, title):
     m = re.search(r"^## " + re.escape(title) + r".*?\n(.*?)(?=^## |\Z)", text, re.S | re.M)
     return m.group(1).strip() if m else ""
@@ -32,7 +56,7 @@ def run(job, src, tier, suite, seed):
     script = f"""
 ip link set lo up
 mount -t overlay overlay -o lowerdir=/repo,upperdir={ns}/ru,workdir={ns}/rw /repo || exit 90
-mount -t overlay overlay -o lowerdir=/verif,upperdir={ns}/vu,workdir={ns}/vw /verif || exit 90
+mount -t overlay overlay -o lowerdir={SNAP + ":" if SNAP else ""}/verif,upperdir={ns}/vu,workdir={ns}/vw /verif || exit 90
 cd /repo && git apply {ns}/patch.diff || exit 91
 if [ {1 if suite else 0} = 1 ]; then ( {BASECMD} ) > {ns}/suite.out 2>&1; echo $? > {ns}/suite.rc; fi
 cd /verif && VERIF_SEED={seed} ./check {pid} --tier {tier} > {ns}/check.out 2> {ns}/check.err; echo $? > {ns}/check.rc
@@ -86,6 +110,14 @@ def main():
         elif x == "--tier": tier = a.pop(0)
         elif x == "--no-suite": suite = False
         elif x == "--src": src = a.pop(0)
+        elif x == "--snap": snapshot()
+        elif x == "--snap-keep":
+            # reuse the source snapshot taken earlier (blind runs against the machinery as it was then); add the build output if missing
+            global SNAP
+            SNAP = "/tmp/ns/_snap"
+            for t in ("target-rel", "target-dbg", "target-miri", "target-rel-openapi", "target-c16"):
+                if os.path.isdir(os.path.join(ROOT, "harness", t)) and not os.path.isdir(os.path.join(SNAP, "harness", t)):
+                    subprocess.run(["cp", "-a", os.path.join(ROOT, "harness", t), os.path.join(SNAP, "harness", t)], check=True)
         else:
             n, _, p = x.partition(":")
             jobs.append((n, p or n.split("-")[0]))
